@@ -378,7 +378,38 @@ var wordPool = []string{"one", "two", "three", "polish", "Polish", "One", "ONE",
 	"x-y", "X-Y", "don't", "123", "4", "ǆ", "ǅ", "Ǆ", "ß", "日本", "élan", "Élan", "ñu", "syl", "lab", "bull", "gen", "er", "at", "or",
 	"w1", "W1", "über", "Über", "o'neil", "O'Neil", "z", "Z", "correct", "horse", "battery", "staple"}
 
+// words that all change under strings.Title, including pairs of distinct words that share one
+// title-cased form (outside the premise of C04/C06, but inside C08/C10)
+var capWords = []string{"one", "two", "three", "polish", "été", "ab", "x-y", "don't", "ǆ", "élan", "ñu", "syl", "lab", "bull",
+	"über", "o'neil", "correct", "horse", "re-do", "six", "µm", "w1x", "a", "b", "z"}
+var titleCollisions = [][2]string{{"ǆ", "Ǆ"}, {"re-do", "re-Do"}, {"o'neil", "o'Neil"}, {"six", "ſix"}, {"µm", "μm"}, {"x-y", "x-Y"}}
+
+// capList: a list in which every word is capitalisable (no title-fixed word), possibly with a
+// title collision and with duplicates.
+func (x *gen) capList() []string {
+	n := 1 + x.g.intn(6)
+	var l []string
+	for i := 0; i < n; i++ {
+		l = append(l, capWords[x.g.intn(len(capWords))])
+	}
+	if x.g.chance(40) {
+		p := titleCollisions[x.g.intn(len(titleCollisions))]
+		l = append(l, p[0], p[1])
+	}
+	if x.g.chance(20) {
+		l = append(l, l[x.g.intn(len(l))])
+	}
+	for i := len(l) - 1; i > 0; i-- {
+		j := x.g.intn(i + 1)
+		l[i], l[j] = l[j], l[i]
+	}
+	return l
+}
+
 func (x *gen) wordList(allowEmptyWord bool) []string {
+	if x.g.chance(25) {
+		return x.capList()
+	}
 	n := 1 + x.g.intn(7)
 	if x.g.chance(15) {
 		n = 8 + x.g.intn(20)
